@@ -182,7 +182,8 @@ class SimulationFixedTimes(Simulation):
     def simulate_one_path(self) -> StochasticPath:
         """Simulation of the path for deterministic payoff dates"""
         # simulate the jump values
-        jumps = np.concatenate(([0.0], +self.simulate_jumps()))
+        # simulate_jumps gives the sum of the jumps of each interval: the path carries their running sum
+        jumps = np.concatenate(([0.0], np.cumsum(self.simulate_jumps())))
 
         # simulate the diffusion part
         diff = np.concatenate(([0.0], +self.simulate_diffusion(self._sqrt_dts)))
